@@ -256,5 +256,81 @@ proof fn theorem_user_pos_numbering(t: Seq<(PosKey, u16)>, start: int, id: int)
     requires pos_wf(t), 0 <= start <= id < t.len()
     ensures t[id].1 as int == id, id - start >= 0, t.subrange(start, t.len() as int)[id - start].0 == t[id].0
 {}
+
+// ===== C12 / C05 (session 5): the table `write_pos_table` emits, READ BACK.  `dec_pos_table` is what the reader of the grammar section
+// ===== (dic/grammar.rs pos_list_parser: le_u16 count, then count x 6 length-prefixed UTF-16 strings) denotes over bytes; v_gramrd uses the
+// ===== same definition (specs/pos_table_rd.rs.inc) as the meaning of the assumed nom combinators.
+//@include specs/wi_format_cursor.rs.inc
+//@include specs/codec_lemmas16.rs.inc
+//@include specs/pos_table_rd.rs.inc
+spec fn key_fits(k: PosKey) -> bool { k.len() == 6 && forall|f: int| 0 <= f < 6 ==> str_fits(#[trigger] k[f]) }
+proof fn lemma_fields_decode(k: PosKey, n: int, rest: Seq<u8>)
+    requires key_fits(k), 0 <= n <= 6
+    ensures dec_fields(fields_tail(k, n) + rest, 6 - n) == Some((rest, k.subrange(n, 6)))
+    decreases 6 - n
+{
+    if n == 6 {
+        assert(fields_tail(k, 6) + rest =~= rest);
+        assert(k.subrange(6, 6) =~= Seq::<Seq<char>>::empty());
+    } else {
+        lemma_fields_decode(k, n + 1, rest);
+        assert(fields_tail(k, n) + rest =~= enc_str(k[n]) + (fields_tail(k, n + 1) + rest));
+        lemma_dec_str(k[n], fields_tail(k, n + 1) + rest);
+        assert(seq![k[n]] + k.subrange(n + 1, 6) =~= k.subrange(n, 6));
+    }
+}
+/// the fields n..6 of a row, front to back
+spec fn fields_tail(k: PosKey, n: int) -> Seq<u8> decreases 6 - n { if n >= 6 { Seq::empty() } else { enc_str(k[n]) + fields_tail(k, n + 1) } }
+proof fn lemma_row_is_tail(k: PosKey) requires k.len() == 6 ensures row_bytes(k) =~= fields_tail(k, 0)
+{ reveal_with_fuel(fields_tail, 8); }
+proof fn lemma_rows_front(t: Seq<(PosKey, u16)>, start: int, n: int)
+    requires 0 <= start < n <= t.len()
+    ensures rows_bytes(t, start, n) =~= row_bytes(t[start].0) + rows_bytes(t, start + 1, n)
+    decreases n
+{
+    if n == start + 1 {
+        assert(rows_bytes(t, start, n - 1) =~= Seq::<u8>::empty());
+        assert(rows_bytes(t, start + 1, n) =~= Seq::<u8>::empty());
+    } else {
+        lemma_rows_front(t, start, n - 1);
+    }
+}
+proof fn lemma_rows_decode(t: Seq<(PosKey, u16)>, start: int, n: int, rest: Seq<u8>)
+    requires 0 <= start <= n <= t.len(), forall|i: int| start <= i < n ==> key_fits(#[trigger] t[i].0)
+    ensures dec_rows(rows_bytes(t, start, n) + rest, n - start) == Some((rest, Seq::new((n - start) as nat, |i: int| t[start + i].0)))
+    decreases n - start
+{
+    let want = Seq::new((n - start) as nat, |i: int| t[start + i].0);
+    if start == n {
+        assert(rows_bytes(t, start, n) + rest =~= rest);
+        assert(want =~= Seq::<PosKey>::empty());
+    } else {
+        let k = t[start].0;
+        lemma_rows_front(t, start, n);
+        lemma_rows_decode(t, start + 1, n, rest);
+        let tail = rows_bytes(t, start + 1, n) + rest;
+        lemma_row_is_tail(k);
+        assert(rows_bytes(t, start, n) + rest =~= fields_tail(k, 0) + tail);
+        lemma_fields_decode(k, 0, tail);
+        assert(k.subrange(0, 6) =~= k);
+        let later = Seq::new((n - start - 1) as nat, |i: int| t[start + 1 + i].0);
+        assert(seq![k] + later =~= want);
+    }
+}
+/// C12 / C05: reading back the part-of-speech table a dictionary was compiled with yields exactly the NEW parts of speech, in id
+/// order, with every string intact - for any number of rows below 65,536 and strings that fit their field (what a successful
+/// write_pos_table established: Utf16Writer::write refuses longer strings)
+proof fn theorem_pos_table_roundtrip(t: Seq<(PosKey, u16)>, start: int, rest: Seq<u8>)
+    requires 0 <= start <= t.len(), t.len() - start <= 0xffff, forall|i: int| start <= i < t.len() ==> key_fits(#[trigger] t[i].0)
+    ensures dec_pos_table(le16u((t.len() - start) as u16) + rows_bytes(t, start, t.len() as int) + rest)
+        == Some((rest, Seq::new((t.len() - start) as nat, |i: int| t[start + i].0)))
+{
+    let n = t.len() as int;
+    let body = rows_bytes(t, start, n) + rest;
+    lemma_dec_u16((n - start) as u16, body);
+    assert(le16u((n - start) as u16) + rows_bytes(t, start, n) + rest =~= le16u((n - start) as u16) + body);
+    lemma_rows_decode(t, start, n, rest);
+}
+
 } // verus!
 fn main() {}
